@@ -21,19 +21,21 @@ GHOST_LOG_DEFS
 #ifndef LEMMA_BLOCKS
 #define LEMMA_BLOCKS 2      /* messages of up to LEMMA_BLOCKS blocks + 9 bytes */
 #endif
-typedef struct { unsigned len, split; size_t k2; } IN_lm;
+typedef struct { unsigned len, split; size_t k2; g_u64 lw; } IN_lm;
 V_INPUT(IN_lm)
 
+/* g_lw: solver-chosen block index ("for every block of the padded message") */
 #define LEMMA_CHECK(NAME, BS, LF, NH, IV, DLEN, WBYTES, HOUT_T) \
     g_u64 total = (g_u64)SPEC_PAD_TOTAL(in.len, BS, LF); unsigned N = (unsigned)(total / BS); \
     V_ASSERT(g_log_n == N, "C18.lemma_" NAME ".number_of_blocks_is_padded_length"); \
-    for(unsigned i = 0; i < G_LOG_MAX; i++) if(i < N && i < g_log_n) { \
+    if(g_lw < N) { \
+        V_ASSERT(g_lw_seen == 1, "C18.lemma_" NAME ".every_block_handed_over_once"); \
         for(unsigned w = 0; w < NH; w++) \
-            V_ASSERT(g_log_hin[i][w] == (i == 0 ? (g_u64)IV(w) : g_log_hout[i - 1][w]), "C18.lemma_" NAME ".chained_from_initial_hash_value"); \
-        V_ASSERT(g_log_blkbyte[i] == SPEC_PAD_BYTE_T(m, in.len, total, LF, (g_u64)i * BS + (g_k2 & (BS - 1))), "C18.lemma_" NAME ".blocks_are_the_fips_padded_message"); \
+            V_ASSERT(g_lw_hin[w] == (g_lw == 0 ? (g_u64)IV(w) : g_lw_prev[w]), "C18.lemma_" NAME ".chained_from_initial_hash_value"); \
+        V_ASSERT(g_lw_byte == SPEC_PAD_BYTE_T(m, in.len, total, LF, g_lw * BS + (g_k2 & (BS - 1))), "C18.lemma_" NAME ".blocks_are_the_fips_padded_message"); \
     } \
-    if(N >= 1 && N <= G_LOG_MAX && g_log_n == N) for(unsigned j = 0; j < DLEN; j++) \
-        V_ASSERT((unsigned char)d[j] == (unsigned char)(g_log_hout[N - 1][j / WBYTES] >> (8 * (WBYTES - 1 - (j % WBYTES)))), "C18.lemma_" NAME ".digest_is_last_chaining_value_big_endian");
+    if(g_lw + 1 == N) for(unsigned j = 0; j < DLEN; j++) \
+        V_ASSERT((unsigned char)d[j] == (unsigned char)(g_lw_hout[j / WBYTES] >> (8 * (WBYTES - 1 - (j % WBYTES)))), "C18.lemma_" NAME ".digest_is_last_chaining_value_big_endian");
 
 void h_lemma_sha256(void) {
     IN_lm in = nondet_IN_lm();
@@ -41,7 +43,7 @@ void h_lemma_sha256(void) {
     unsigned char *m = malloc(LEMMA_BLOCKS * 64 + 9); V_ASSUME(m != NULL);   /* fixed-size object: over-reads are the update units' obligation */
     sha256_ctx *c = malloc(sizeof(*c)); V_ASSUME(c != NULL);
     unsigned char *d = malloc(SHA256_DIGEST_SIZE); V_ASSUME(d != NULL);
-    g_log_n = 0; g_k2 = in.k2;
+    g_log_n = 0; g_k2 = in.k2; g_lw = in.lw; g_lw_seen = 0;
     sha256_init(c); sha256_update(c, m, in.split); sha256_update(c, m + in.split, in.len - in.split); sha256_final(c, d);
     LEMMA_CHECK("sha256", 64, 8, 8, SPEC_SHA256_IV, 32, 4, uint32_t)
     V_COVER(in.len == 55 && N == 1); V_COVER(in.len == 56 && N == 2); V_COVER(in.len == LEMMA_BLOCKS * 64 + 9 && N == LEMMA_BLOCKS + 1 && in.split == 60); V_COVER(in.len == 0);
@@ -52,7 +54,7 @@ void h_lemma_sha512(void) {
     unsigned char *m = malloc(LEMMA_BLOCKS * 128 + 9); V_ASSUME(m != NULL);
     sha512_ctx *c = malloc(sizeof(*c)); V_ASSUME(c != NULL);
     unsigned char *d = malloc(SHA512_DIGEST_SIZE); V_ASSUME(d != NULL);
-    g_log_n = 0; g_k2 = in.k2;
+    g_log_n = 0; g_k2 = in.k2; g_lw = in.lw; g_lw_seen = 0;
     sha512_init(c); sha512_update(c, m, in.split); sha512_update(c, m + in.split, in.len - in.split); sha512_final(c, d);
     LEMMA_CHECK("sha512", 128, 16, 8, SPEC_SHA512_IV, 64, 8, uint64_t)
     V_COVER(in.len == 111 && N == 1); V_COVER(in.len == 112 && N == 2); V_COVER(in.len == LEMMA_BLOCKS * 128 + 9 && N == LEMMA_BLOCKS + 1 && in.split == 120); V_COVER(in.len == 0);
@@ -63,7 +65,7 @@ void h_lemma_sha1(void) {
     sha1_byte *m = malloc(LEMMA_BLOCKS * 64 + 9); V_ASSUME(m != NULL);
     SHA_CTX *c = malloc(sizeof(*c)); V_ASSUME(c != NULL);
     sha1_byte *d = malloc(SHA1_DIGEST_LENGTH); V_ASSUME(d != NULL);
-    g_log_n = 0; g_k2 = in.k2;
+    g_log_n = 0; g_k2 = in.k2; g_lw = in.lw; g_lw_seen = 0;
     SHA1_Init(c); SHA1_Update(c, m, in.split); SHA1_Update(c, m + in.split, in.len - in.split); SHA1_Final(d, c);
     LEMMA_CHECK("sha1", 64, 8, 5, SPEC_SHA1_IV, 20, 4, uint32_t)
     V_COVER(in.len == 55 && N == 1); V_COVER(in.len == 56 && N == 2); V_COVER(in.len == LEMMA_BLOCKS * 64 + 9 && N == LEMMA_BLOCKS + 1 && in.split == 60); V_COVER(in.len == 0);
